@@ -106,7 +106,7 @@ def integrate(logp, d, lo, hi, draws, bounded, level):
     return float(np.sum(np.exp(vals) * W.ravel()))
 
 
-def build_flow(backend, bounded, affine, dt, d, seed):
+def build_flow(backend, bounded, affine, dt, d, seed, eps_dt=1e-6):
     from aspire.flows import get_flow_wrapper
     from aspire.transforms import FlowTransform
 
@@ -117,7 +117,7 @@ def build_flow(backend, bounded, affine, dt, d, seed):
     ns = "torch" if backend == "zuko" else "jax"
     dtf = FlowTransform(parameters=params, prior_bounds=pb if bounded != "off" else None, bounded_to_unbounded=bounded != "off",
                         bounded_transform=bounded if bounded != "off" else "logit", affine_transform=affine, xp=fxp,
-                        dtype=get_dtype(ns, dt))
+                        dtype=get_dtype(ns, dt), eps=eps_dt)
     if backend == "zuko":
         return F(dims=d, seed=seed, dtype=dt, data_transform=dtf, hidden_features=[16, 16], transforms=2), F
     import jax
@@ -126,9 +126,11 @@ def build_flow(backend, bounded, affine, dt, d, seed):
 
 
 def run_config(cfg):
-    backend, bounded, affine, dt, d, data, stage, seed = cfg
+    backend, bounded, affine, dt, d, data, stage, seed = cfg[:8]
+    eps_dt = cfg[8] if len(cfg) > 8 else 1e-6  # clipping margin of the data transform (default 1e-6)
     r = Report()
-    case = {"backend": backend, "bounded": bounded, "affine": affine, "dtype": dt, "dims": d, "data": data, "stage": stage, "seed": seed}
+    case = {"backend": backend, "bounded": bounded, "affine": affine, "dtype": dt, "dims": d, "data": data, "stage": stage, "seed": seed,
+            "eps": eps_dt}
     r.case(explorer.digest(case), nontrivial=bounded != "off" or affine)
     tmp = None
     try:
@@ -149,7 +151,7 @@ def run_config(cfg):
                 a.fit(Samples(x=x, parameters=params, xp=get_xp("numpy")), max_epochs=2, batch_size=64, show_progress=False)
             flow = a.flow
         else:
-            flow, F = build_flow(backend, bounded, affine, dt, d, seed)
+            flow, F = build_flow(backend, bounded, affine, dt, d, seed, eps_dt)
             if stage in ("refit", "refit-loaded"):
                 # non-initial state: the same flow object was trained before on data of another location/spread
                 x0 = training("narrow" if data != "narrow" else "centred", d, rng)
@@ -190,7 +192,7 @@ def run_config(cfg):
             r.violation(f"C03/{backend}/draw-outside-bounds/{bounded}", {"min": xs_np.min(0).tolist(), "max": xs_np.max(0).tolist()}, case)
     # (ii) pointwise agreement, except rows inside the clipping margin
     tt = (xs_np - lo) / (hi - lo)
-    margin = CLIP * (30 if f32 else 1.5)
+    margin = max(CLIP, eps_dt) * (30 if f32 else 1.5)
     inside = np.all((tt > margin) & (tt < 1 - margin), axis=1) if bounded != "off" else np.ones(len(xs_np), dtype=bool)
     # rounding-aware: near a bound d(log q)/dx ~ 1/(distance to bound)
     eps = 1.2e-7 if f32 else 2.3e-16
@@ -285,6 +287,10 @@ def configs(tier, seed):
             out.append(("zuko", bounded, affine, "float64", 1, "centred", "refit", 0))
             out.append(("zuko", bounded, affine, "float64", 1, "piled", "refit-loaded", 0))
     out.append(("flowjax", "logit", True, "float64", 1, "centred", "refit", 0))
+    # a non-default (large) clipping margin: data well inside the bounds, so the sliver carries no mass
+    for bounded in ("logit", "probit"):
+        out.append(("zuko", bounded, True, "float64", 1, "centred", "trained", 0, 1e-2))
+        out.append(("zuko", bounded, True, "float64", 2, "centred", "loaded", 0, 1e-2))  # affine on: without it the wide base density puts real mass into the clipping sliver
     if tier == "thorough":
         out.append(("flowjax", "logit", True, "float64", 1, "centred", "aspire", 0))
     return out
@@ -302,5 +308,5 @@ def run(tier, seed, workers):
 
 def replay(case):
     r = Report()
-    r.merge(run_config((case["backend"], case["bounded"], case["affine"], case["dtype"], case["dims"], case["data"], case["stage"], case["seed"])))
+    r.merge(run_config((case["backend"], case["bounded"], case["affine"], case["dtype"], case["dims"], case["data"], case["stage"], case["seed"], case.get("eps", 1e-6))))
     return r
